@@ -421,7 +421,8 @@ def _check_class(ctx: Ctx, cls: ClassInfo, idx_bin: int) -> None:
     if isinstance(rv, ast.Call):
         tgt = repo.resolve_expr(evm.module, rv.func)
         if isinstance(tgt, FuncInfo) and tgt.njit is not None:
-            kern = tgt
+            from sa.srcmodel import kernel_normalised
+            kern = kernel_normalised(tgt)
     cols = {nm: repo.const(repo.module(PK), ast.Name(id=nm))
             for nm in ("IDX_LEFT_X", "IDX_BOTTOM_Y", "IDX_RIGHT_X",
                        "IDX_TOP_Y")}
@@ -753,7 +754,8 @@ def _skyline_sweep(ctx: Ctx, modname: str, fname: str, per_bin: bool) \
     from sa.srcmodel import inline_locals
     from sa.symterm import Env, ite
     repo = ctx.repo
-    fi = repo.func(modname, fname)
+    from sa.srcmodel import kernel_normalised
+    fi = kernel_normalised(repo.func(modname, fname))
     yp, wp, hp = fi.params[:3]
     body = func_body(fi)
     problems: list[str] = []
@@ -812,6 +814,7 @@ def _skyline_sweep(ctx: Ctx, modname: str, fname: str, per_bin: bool) \
             ok_it = isinstance(it, ast.Call) and isinstance(
                 it.func, ast.Name) and it.func.id == "range" and len(
                 it.args) == 2 and not it.keywords
+            recognised = ok_it
             if ok_it:
                 try:
                     e_b = pre_env(body[:body.index(bin_loop)], base)
@@ -820,9 +823,12 @@ def _skyline_sweep(ctx: Ctx, modname: str, fname: str, per_bin: bool) \
                     ok_it = lo_ == Poly.const(1) and hi_ == last_bin + \
                         Poly.const(1)
                 except Unsupported:
-                    ok_it = False
+                    ok_it = recognised = False
             if not ok_it:
-                problems.append("the bins are not enumerated as 1..bins")
+                problems.append(
+                    "the bins are not enumerated as 1..bins" if recognised
+                    else "the enumeration of the bins is not recognised "
+                    f"(`{ast.unparse(it)}`)")
     sweep = next((s_ for s_ in scope if isinstance(s_, ast.While)), None)
     if sweep is None:
         ctx.ob("D2.6", fi, fi.node, False, "no sweep loop",
@@ -836,7 +842,8 @@ def _skyline_sweep(ctx: Ctx, modname: str, fname: str, per_bin: bool) \
               and n.id in assigned_sweep]
     cn = tnames[0] if len(set(tnames)) == 1 else None
     if cn is None:
-        problems.append("the sweep does not run while position < bin width")
+        problems.append("the sweep loop test is not recognised "
+                        f"(`{ast.unparse(sweep.test)}`)")
     else:
         e_t = Env()
         e_t.vars.update({wp: W, cn: c})
@@ -850,7 +857,13 @@ def _skyline_sweep(ctx: Ctx, modname: str, fname: str, per_bin: bool) \
     ok_scan = scan is not None and isinstance(scan.target, ast.Name) and \
         src(inline_locals(fi.node, scan.iter)) == f"range(len({yp}))"
     if not ok_scan:
-        problems.append("the scan does not visit every row of the packing")
+        it_s = scan.iter if scan is not None else None
+        is_range = isinstance(it_s, ast.Call) and isinstance(
+            it_s.func, ast.Name) and it_s.func.id == "range" and isinstance(
+            scan.target, ast.Name)
+        problems.append(
+            "the scan does not visit every row of the packing" if is_range
+            else "the scan over the rows of the packing is not recognised")
     if per_bin:
         # the values at the start of a round of the bin loop: what the loop
         # itself assigns is carried over from the previous bin, hence
@@ -866,8 +879,14 @@ def _skyline_sweep(ctx: Ctx, modname: str, fname: str, per_bin: bool) \
     if cn is not None and e_pre.vars.get(cn) != zero:
         problems.append("the sweep does not start at x = 0")
     if problems or scan is None or cn is None:
-        ctx.ob("D2.6", fi, sweep, False, "; ".join(problems),
-               construct=construct)
+        soft = [p_ for p_ in problems if "not recognised" in p_]
+        hard = [p_ for p_ in problems if p_ not in soft]
+        if hard or not soft:
+            ctx.ob("D2.6", fi, sweep, False, "; ".join(hard),
+                   construct=construct)
+        if soft:
+            ctx.ob("D2.6", fi, sweep, False, "; ".join(soft),
+                   construct=construct + " (shape)")
         return
     iv = scan.target.id
     # the bin the scan looks at: the name compared with y[i, IDX_BIN]
